@@ -46,17 +46,21 @@ theorem lookup_update_other {α : Type} (l : List (String × α)) (k k' : String
 
 /-! ## what build and exit do to the nodes -/
 
-/-- **pass xor block, with the batch count, on the resource's node; mirrored on the inbound node iff inbound** -/
-theorem build_accounts_once (w : World) (eid : Nat) (res : String) (batch : Nat) (inbound : Bool) :
-    ((w.build eid res batch inbound).2 = .pass ∧
-        (w.build eid res batch inbound).1.node res = (w.node res).recordPass w.nowMs batch ∧
-        (w.build eid res batch inbound).1.inbound = (if inbound then w.inbound.recordPass w.nowMs batch else w.inbound)) ∨
-    ((∃ ty rule snap, (w.build eid res batch inbound).2 = .blocked ty rule snap) ∧
-        (w.build eid res batch inbound).1.node res = (w.node res).recordBlock w.nowMs batch ∧
-        (w.build eid res batch inbound).1.inbound = (if inbound then w.inbound.recordBlock w.nowMs batch else w.inbound)) := by
+/-- **pass xor block, with the batch count, on the resource's node; mirrored on the inbound node iff inbound.**
+`tc` is the time at which the rule-check slots finished (later than the call time only when a throttling rule
+made the caller wait). -/
+theorem build_accounts_once (w : World) (eid : Nat) (res : String) (batch : Nat) (inbound : Bool)
+    (args : Option (List String)) (atts : Option (List (String × String))) :
+    let tc := (w.runChecks res batch inbound args atts).nowNs / 1000000
+    ((w.build eid res batch inbound args atts).2 = .pass ∧
+        (w.build eid res batch inbound args atts).1.node res = (w.node res).recordPass tc batch ∧
+        (w.build eid res batch inbound args atts).1.inbound = (if inbound then w.inbound.recordPass tc batch else w.inbound)) ∨
+    ((∃ ty rule snap, (w.build eid res batch inbound args atts).2 = .blocked ty rule snap) ∧
+        (w.build eid res batch inbound args atts).1.node res = (w.node res).recordBlock tc batch ∧
+        (w.build eid res batch inbound args atts).1.inbound = (if inbound then w.inbound.recordBlock tc batch else w.inbound)) := by
   unfold World.build
   simp only []
-  cases hv : w.verdict res batch inbound with
+  cases hv : (w.runChecks res batch inbound args atts).res with
   | pass =>
     left
     simp only [World.node, lookup_update_same, Option.getD_some, and_self]
@@ -67,17 +71,18 @@ theorem build_accounts_once (w : World) (eid : Nat) (res : String) (batch : Nat)
 
 /-- other resources' nodes are untouched by a build -/
 theorem build_frame (w : World) (eid : Nat) (res res' : String) (batch : Nat) (inbound : Bool)
-    (hne : res ≠ res') :
-    (w.build eid res batch inbound).1.node res' = w.node res' := by
+    (args : Option (List String)) (atts : Option (List (String × String))) (hne : res ≠ res') :
+    (w.build eid res batch inbound args atts).1.node res' = w.node res' := by
   unfold World.build
   simp only []
-  cases hv : w.verdict res batch inbound <;>
+  cases hv : (w.runChecks res batch inbound args atts).res <;>
   simp only [World.node, lookup_update_other _ _ _ _ hne]
 
 /-- outbound entries are never mirrored on the inbound totals -/
-theorem outbound_not_mirrored (w : World) (eid : Nat) (res : String) (batch : Nat) :
-    (w.build eid res batch false).1.inbound = w.inbound := by
-  rcases build_accounts_once w eid res batch false with ⟨_, _, h⟩ | ⟨_, _, h⟩ <;> simpa using h
+theorem outbound_not_mirrored (w : World) (eid : Nat) (res : String) (batch : Nat)
+    (args : Option (List String)) (atts : Option (List (String × String))) :
+    (w.build eid res batch false args atts).1.inbound = w.inbound := by
+  rcases build_accounts_once w eid res batch false args atts with ⟨_, _, h⟩ | ⟨_, _, h⟩ <;> simpa using h
 
 /-- a blocked entry changes neither the in-flight count nor the completion statistics of its node -/
 theorem blocked_leaves_no_trace (n : Node) (now batch : Nat) :
